@@ -162,7 +162,7 @@ class Model(SOCModel):
                             exp_cone_constr = ExpConstr(constr.model,
                                                         exprs[0],
                                                         -exprs[2], exprs[1])
-                            self.exp_constr.append(exp_cone_constr)
+                            more_exp.append(exp_cone_constr)
                     elif constr.xtype == 'L':
                         affine_out = constr.affine_out * (1/constr.multiplier)
                         exprs_list = rso_broadcast(constr.affine_in,
@@ -171,11 +171,11 @@ class Model(SOCModel):
                         for exprs in exprs_list:
                             exp_cone_constr = ExpConstr(constr.model,
                                                         exprs[2], exprs[0], exprs[1])
-                            self.exp_constr.append(exp_cone_constr)
+                            more_exp.append(exp_cone_constr)
                 elif isinstance(constr, CvxConstr):
                     if constr.xtype == 'P':
                         affine_out = constr.affine_out * (1/constr.multiplier)
-                        aux_var = self.dvar(constr.affine_in.shape)
+                        aux_var = self.dvar(constr.affine_in.shape, aux=True)
                         self.aux_constr.append(aux_var.sum() >= affine_out)
                         ns = constr.affine_in.size
                         affine_in = constr.affine_in.reshape(ns)
@@ -191,38 +191,38 @@ class Model(SOCModel):
                         for exprs in exprs_list:
                             exp_cone_constr = ExpConstr(constr.model,
                                                         exprs[0], -exprs[1], 1)
-                            self.exp_constr.append(exp_cone_constr)
+                            more_exp.append(exp_cone_constr)
                     elif constr.xtype == 'L':
                         affine_out = constr.affine_out * (1/constr.multiplier)
                         exprs_list = rso_broadcast(constr.affine_in, affine_out)
                         for exprs in exprs_list:
                             exp_cone_constr = ExpConstr(constr.model,
                                                         exprs[1], exprs[0], 1)
-                            self.exp_constr.append(exp_cone_constr)
+                            more_exp.append(exp_cone_constr)
                     elif constr.xtype == 'F':
                         affine_out = constr.affine_out * (1/constr.multiplier)
                         exprs_list = rso_broadcast(constr.affine_in, affine_out)
                         ns = len(exprs_list)
-                        aux_var = self.dvar((ns, 2))
+                        aux_var = self.dvar((ns, 2), aux=True)
                         self.aux_constr.append(aux_var.sum(axis=1) <= 1)
                         for s, exprs in enumerate(exprs_list):
                             exp_cone_constr = ExpConstr(constr.model,
                                                         exprs[0] + exprs[1],
                                                         aux_var[s, 0], 1)
-                            self.exp_constr.append(exp_cone_constr)
+                            more_exp.append(exp_cone_constr)
                             exp_cone_constr = ExpConstr(constr.model,
                                                         exprs[1],
                                                         aux_var[s, 1], 1)
-                            self.exp_constr.append(exp_cone_constr)
+                            more_exp.append(exp_cone_constr)
                     elif constr.xtype == 'N':
                         affine_in = constr.affine_in
                         affine_out = constr.affine_out * (1/constr.multiplier)
                         order = constr.params
                         dim_in = affine_in.size
-                        aux_xvar = self.dvar(dim_in).to_affine()
-                        aux_zvar = self.dvar(dim_in).to_affine()
-                        aux_rvar = self.dvar(dim_in).to_affine()
-                        aux_yvar = self.dvar().to_affine()
+                        aux_xvar = self.dvar(dim_in, aux=True).to_affine()
+                        aux_zvar = self.dvar(dim_in, aux=True).to_affine()
+                        aux_rvar = self.dvar(dim_in, aux=True).to_affine()
+                        aux_yvar = self.dvar(aux=True).to_affine()
                         self.aux_constr.append(affine_in <= aux_xvar)
                         self.aux_constr.append(-affine_in <= aux_xvar)
                         self.aux_constr.append(aux_zvar.sum() <= aux_yvar)
@@ -232,12 +232,12 @@ class Model(SOCModel):
                                                         -aux_rvar[s] * (1/(order - 1)),
                                                         aux_yvar,
                                                         aux_xvar[s])
-                            self.exp_constr.append(exp_cone_constr)
+                            more_exp.append(exp_cone_constr)
                             exp_cone_constr = ExpConstr(constr.model,
                                                         aux_rvar[s],
                                                         aux_zvar[s],
                                                         aux_xvar[s])
-                            self.exp_constr.append(exp_cone_constr)
+                            more_exp.append(exp_cone_constr)
                 elif isinstance(constr, LMIConstr):
                     lmi.append({'linear': constr.linear,
                                 'const': constr.const,
